@@ -56,6 +56,8 @@ func init() {
 			Run: func(P *Program, R *Report) { windowRule(P, R) }},
 		Rule{ID: "C09.e", Explain: "memo-key completeness of Update.Product(from): a cached product is returned only under a comparison of the requested `from` with the index the cache was computed for; the computed product ranges over Events[from-Events[0].Index:]; Prepend keeps the cache key consistent.",
 			Run: func(P *Program, R *Report) { productMemoRule(P, R) }},
+		Rule{ID: "C09.g", Explain: "the values a history is made of are immutable: no function of the module mutates in place (big.Int mutator with it as receiver) an integer loaded from Event.E, Witness.E, Witness.U or Accumulator.Nu; new values are computed into fresh integers and assigned (one Update object, event list or accumulator is applied to many witnesses and re-verified by its hash chain).",
+			Run: func(P *Program, R *Report) { historyValuesImmutableRule(P, R) }},
 		Rule{ID: "C09.f", Explain: "Accumulator.Remove / newWitness: new Nu = Nu^(e^-1 mod Order) mod N, index+1, the event carries e, the new index and the parent's hash; a fresh witness is u = Nu^(e^-1) (symbolic terms; inverses checked).",
 			Run: func(P *Program, R *Report) { accumulatorRemoveRule(P, R) }},
 	)
@@ -322,6 +324,58 @@ func productMemoRule(P *Program, R *Report) {
 		}
 		R.decide(rule, FuncKey(pf)+":cache-key", "after prepending, the cached product is re-keyed to the new first event index (or dropped)", okKey && nNil, "", P.Pos(pf.Pos()))
 	}
+	// every other writer of the event list drops the memo: the cache key names only `from`, so whoever
+	// replaces update.Events in an existing object must invalidate the cached product in the same call
+	nWriters := 0
+	for _, g := range P.AllFuncs {
+		if g.Blocks == nil {
+			continue
+		}
+		allInstrs(g, func(i ssa.Instruction) {
+			st, ok := i.(*ssa.Store)
+			if !ok {
+				return
+			}
+			fa, ok := st.Addr.(*ssa.FieldAddr)
+			if !ok || typeKey(fa.X.Type()) != "revocation.Update" || fieldName(fa.X.Type(), fa.Field) != "Events" {
+				return
+			}
+			if _, fresh := rootOfAddr(fa.X).(*ssa.Alloc); fresh {
+				return // a new object has no memo yet
+			}
+			nWriters++
+			root := rootOfAddr(fa.X)
+			q := &MustPass{P: P, NoInterproc: true, Instr: func(_ *ssa.Function, j ssa.Instruction) bool {
+				s2, ok := j.(*ssa.Store)
+				if !ok {
+					return false
+				}
+				f2, ok := s2.Addr.(*ssa.FieldAddr)
+				if !ok || typeKey(f2.X.Type()) != "revocation.Update" || rootOfAddr(f2.X) != root {
+					return false
+				}
+				return fieldName(f2.X.Type(), f2.Field) == "product" && isNilConst(s2.Val)
+			}}
+			q.init()
+			okAll := true
+			var why []string
+			// dropped before the replacement on every path to it ...
+			if q.MustReach(g, st).Holds {
+				R.decide(rule, FuncKey(g)+":events-replaced", "a function that replaces the event list of an existing Update drops the cached product in the same call", true, "", P.Pos(st.Pos()))
+				return
+			}
+			// ... or afterwards, before any return
+			for _, r := range returnsOf(g) {
+				res := q.search(g, AcceptAny(), 0, searchOpts{startAt: []*mpState{{b: r.Block(), note: "return at " + P.Pos(r.Pos())}}, startInstr: r, terminal: st.Block()})
+				if !res.Holds {
+					okAll = false
+					why = append(why, res.Path)
+				}
+			}
+			R.decide(rule, FuncKey(g)+":events-replaced", "a function that replaces the event list of an existing Update drops the cached product in the same call", okAll, strings.Join(why, "\n"), P.Pos(st.Pos()))
+		})
+	}
+	R.decide(rule, "events-writers:count", "writers of Update.Events on existing objects were found (>= 1: the decoder)", nWriters >= 1, fmt.Sprintf("%d", nWriters), "")
 }
 
 func accumulatorRemoveRule(P *Program, R *Report) {
@@ -385,5 +439,97 @@ func accumulatorRemoveRule(P *Program, R *Report) {
 			}
 			return false
 		}})
+	}
+}
+
+// loadedFromFields: v is (possibly through phis) a *big.Int loaded from one of the tabled struct fields.
+func loadedFromFields(v ssa.Value, table map[string]bool) (string, bool) {
+	seen := map[ssa.Value]bool{}
+	var walk func(x ssa.Value) (string, bool)
+	walk = func(x ssa.Value) (string, bool) {
+		if seen[x] {
+			return "", false
+		}
+		seen[x] = true
+		switch y := x.(type) {
+		case *ssa.Phi:
+			for _, e := range y.Edges {
+				if s, ok := walk(e); ok {
+					return s, true
+				}
+			}
+		case *ssa.ChangeType:
+			return walk(y.X)
+		case *ssa.UnOp:
+			if y.Op != token.MUL {
+				return "", false
+			}
+			switch a := y.X.(type) {
+			case *ssa.FieldAddr:
+				k := typeKey(a.X.Type()) + "." + fieldName(a.X.Type(), a.Field)
+				if table[k] {
+					return k, true
+				}
+			case *ssa.Alloc:
+				// local variable holding the pointer
+				for _, r := range referrersOf(a) {
+					if st, ok := r.(*ssa.Store); ok && st.Addr == ssa.Value(a) {
+						if s, ok := walk(st.Val); ok {
+							return s, true
+						}
+					}
+				}
+			}
+		case *ssa.Field:
+			k := typeKey(y.X.Type()) + "." + fieldName(y.X.Type(), y.Field)
+			if table[k] {
+				return k, true
+			}
+		case *ssa.Call:
+			// x.Set(..)/x.Mul(..) return their receiver
+			if m := bigMethod(y); m != "" && bigMutators[m] && len(y.Call.Args) > 0 {
+				return walk(y.Call.Args[0])
+			}
+		}
+		return "", false
+	}
+	return walk(v)
+}
+
+func historyValuesImmutableRule(P *Program, R *Report) {
+	rule := "C09.g"
+	table := map[string]bool{"revocation.Event.E": true, "revocation.Witness.E": true, "revocation.Witness.U": true, "revocation.Accumulator.Nu": true}
+	nReads, nMut := 0, 0
+	bad := map[string]string{}
+	for _, fn := range P.AllFuncs {
+		if fn.Blocks == nil {
+			continue
+		}
+		allInstrs(fn, func(i ssa.Instruction) {
+			c, ok := i.(*ssa.Call)
+			if !ok {
+				return
+			}
+			m := bigMethod(c)
+			if m == "" {
+				return
+			}
+			for k, a := range c.Call.Args {
+				if f, is := loadedFromFields(a, table); is {
+					nReads++
+					if k == 0 && bigMutators[m] {
+						nMut++
+						bad[FuncKey(fn)+":in-place("+f+")"] = fmt.Sprintf("%s: %s.%s(...) overwrites the shared value", P.Pos(c.Pos()), f, m)
+					}
+				}
+			}
+		})
+	}
+	R.decide(rule, "uses:count", "uses of event / witness / accumulator integers as big.Int operands were found (>= 8)", nReads >= 8, fmt.Sprintf("%d", nReads), "")
+	for _, k := range sortedKeys(boolSet(bad)) {
+		R.bad(rule, k, "no in-place mutation of an integer that belongs to an event, witness or accumulator", bad[k], "")
+	}
+	if len(bad) == 0 {
+		R.ok(rule, "revocation:history-values-immutable", fmt.Sprintf("none of the %d operand uses is the receiver of a mutating big.Int method", nReads))
 	}
 }
